@@ -6,6 +6,7 @@ from common import hexs
 PROP = "C10"
 HARNESS = "num"
 COMPONENT = "num"
+TIE = ["TranslatedNum"]      # Lemmas/TranslatedNum.lean: Model/Num.lean intInc = json_object_int_inc as translated by tools/extract/c2lean.py
 VARIANT = "asan"
 SLICE = 1500
 TIMEOUT = 1800
